@@ -503,6 +503,43 @@ func checkC10(c *Ctx) {
 	if cl := c.fn("C10.6", lib, "RegistrationManager", "Cleanup"); cl != nil {
 		r.Check(len(callsIn(cl, shortIs("clearDetector"))) == 1, "C10.6", "Cleanup calls clearDetector", cl.Pos(), fnName(cl), "1 call", "Cleanup no longer sends the clear request")
 	}
+	// ---- C10.11 an Update describes the registration that was used: updateInDetector is invoked by markActive only, with
+	// markActive's own registration (an Update built from another registration announces the wrong phantom, and a record
+	// flipped to used without an Update of its own is kept by the station for 6 h while the detector was asked for 10 min)
+	r.Rule("C10.11", "updateInDetector is invoked by markActive only, on the registration that was matched", 1)
+	{
+		n := 0
+		for _, g := range c.funcsOfPkgs(lib) {
+			eachInstr(g, func(in ssa.Instruction) {
+				call, ok := in.(*ssa.Call)
+				if !ok || call.Call.IsInvoke() || call.Call.StaticCallee() != nil {
+					return
+				}
+				u, isU := call.Call.Value.(*ssa.UnOp)
+				if !isU {
+					return
+				}
+				if _, fld, ok := fieldOwner(u.X); !ok || fld != "updateInDetector" {
+					return
+				}
+				n++
+				okk := g.Name() == "markActive" && len(g.Params) >= 2 && len(call.Call.Args) == 1 && call.Call.Args[0] == ssa.Value(g.Params[len(g.Params)-1])
+				r.Check(okk, "C10.11", fnName(g)+": updateInDetector("+firstN(pathOf(call.Call.Args[0]), 30)+")", call.Pos(), fnName(g), "markActive's own registration",
+					"an Update is published outside markActive, or for a registration other than the one that was matched: the detector extends the wrong session, and the registration that was flipped to used is forwarded for 10 minutes only while the station accepts it for 6 hours")
+			})
+		}
+		if n == 0 {
+			r.Unk("C10.11", "call sites of updateInDetector", token.NoPos, "", "none found")
+		}
+	}
+	// the clear is unconditional: whatever the station still tracks, the detector may hold sessions of its own clock
+	if cl := c.fn("C10.6", lib, "RegistrationManager", "Cleanup"); cl != nil {
+		for _, ci := range callsIn(cl, shortIs("clearDetector")) {
+			r.Check(unconditional(cl, ci.(ssa.Instruction)), "C10.6", "Cleanup: clearDetector on every path", ci.Pos(), fnName(cl), "reached whatever any condition says",
+				"Cleanup can return without sending the clear request (a condition on the station's own tables): the detector's sessions run on its own clock and outlive the station's records, so a station that shuts down with an empty table leaves diversions behind that its successor knows nothing about")
+		}
+	}
+
 	// ---- C10.10 the clear request belongs to shutdown and is the last word: (a) nothing but main's deferred Cleanup
 	// sends it (a clear while registrations stay tracked leaves the station accepting sessions the detector no longer
 	// diverts); (b) the ingest pipeline returns only after its workers returned, so no New can follow the Clear
